@@ -154,7 +154,7 @@ def features(spec: dict) -> dict:
         'dup_in_one_parent': fresh_in_one_parent, 'max_depth': max_depth, 'req_is_dep': req_is_dep,
         'repeat_request': len(req) != len(set(req)),
         'pre_cached_proper': 0 < len(pre) < len(cacheable), 'pre_cached_any': len(pre) > 0,
-        'failing': sorted(i for i in clo if nodes[i].get('mode', 'ok') not in ('ok', 'probe', 'stubborn')),
+        'failing': sorted(i for i in clo if nodes[i].get('mode', 'ok') not in ('ok', 'probe', 'stubborn', 'linger')),
         'types': sorted({nodes[i]['type'] for i in clo}),
     }
 
